@@ -459,6 +459,8 @@ const char* role_of(int id) {
   return S.threads[id]->role.c_str();
 }
 
+void detach_current_thread() { tl_self = nullptr; }
+
 void set_child_role(const char* role) {
   if (tl_self) tl_self->childRole = role ? role : "";
 }
@@ -722,6 +724,8 @@ int __wrap_pthread_once(pthread_once_t* ctl, void (*fn)(void)) {
 
 int __wrap_sched_yield(void) {
   if (!tl_self) return __real_sched_yield();
+  // a thread that yields is spinning on somebody else's progress: under strict priorities it must not starve them
+  if (S.cfg.policy == POLICY_PCT) tl_self->prio = --S.pctLow;
   sched_point(tl_self);
   return 0;
 }
@@ -780,3 +784,11 @@ time_t __wrap_time(time_t* t) {
 }
 
 } // extern "C"
+
+// Once a sanitizer starts reporting, the reporting thread must reach the real OS (it forks the
+// symbolizer and talks to it over real pipes): take it out of the simulation.
+extern "C" {
+void __asan_on_error() { sim::detach_current_thread(); }
+void __ubsan_on_report() { sim::detach_current_thread(); }
+void __tsan_on_report(void*) { sim::detach_current_thread(); }
+}
